@@ -184,6 +184,8 @@ class Recorder:
             arg["x"] = B.datum(op["x"], self.g, op.get("rec"))
             if kind == "Fill":
                 arg["w"] = to_float(op["w"])
+                if (op.get("rec") or B.RECMODE[0]) == "npdict":
+                    arg["w"] = np.float64(arg["w"])
         elif kind == "FillNumpy":
             arg["data"] = B.batch(op["rows"], self.g)
             arg["before"] = arg["data"].tobytes()
